@@ -462,12 +462,41 @@ fn hot_drop_case(dir: &Path, rng: &mut Rng, stats: &mut Counts) -> R<String> {
                 ));
             }
         }
+        let mut bad_key_called = false;
+        if rng.chance(1, 4) {
+            bad_key_called = true;
+            // an invalid key (empty, or longer than 65535 bytes) on another thread: whatever the call does (error or
+            // panic; the instance may refuse further writes afterwards), the database must stay droppable and
+            // reopenable, and nothing of the call may be recovered
+            let ks2 = ks.clone();
+            let bad: Vec<u8> = if rng.chance(1, 2) { Vec::new() } else { vec![b'k'; 65_536 + rng.below(3) as usize] };
+            let how = rng.below(3);
+            let r = std::thread::Builder::new()
+                .name("bad-key".into())
+                .spawn(move || match how {
+                    0 => ks2.insert(bad, "v").is_ok(),
+                    1 => ks2.remove(bad).is_ok(),
+                    _ => ks2.insert(bad, Vec::<u8>::new()).is_ok(),
+                })
+                .expect("spawn")
+                .join();
+            stats.inc("hot_drop.invalid_key_calls");
+            if let Ok(true) = r {
+                return Err(Deviation::new("unexpected:invalid-key-accepted", "a write with an empty / over-long key was acknowledged"));
+            }
+        }
         let n = rng.range(1, 40);
         for i in 0..n {
             let k = format!("r{round}-{i:03}");
             let v = vec![b'a' + (i % 26) as u8; rng.range(100, 3_000) as usize];
-            ks.insert(k.clone(), v.clone()).map_err(|e| Deviation::new("unexpected-error:write", format!("{e:?}")))?;
-            expect.insert(k, v);
+            match ks.insert(k.clone(), v.clone()) {
+                Ok(()) => {
+                    expect.insert(k, v);
+                }
+                // after a panic inside the invalid-key call the instance may be fail-stopped
+                Err(_) if bad_key_called => break,
+                Err(e) => return Err(Deviation::new("unexpected-error:write", format!("{e:?}"))),
+            }
         }
         if rng.chance(1, 3) {
             let _ = ks.rotate_memtable();
